@@ -6,6 +6,15 @@ package main
 //	  opts = d<0|1>t<0|1>g<0|1>a<-|all|warning|error>: gun options httptrace.dump, httptrace.trace, debug-level
 //	         logging (verboseLogging), answlog enabled with that filter
 //	  mode = 0 | 1 (nobody listens: connection refused) | 2 (http2 gun only: TLS target WITHOUT HTTP/2 = the documented fatal condition)
+//	       | 3 (http / scenario guns: the target is given by HOST NAME and refuses connections while the config is decoded -
+//	            the gun factory cannot pre-resolve it and keeps the process-wide DNS-caching dialer - and accepts from
+//	            the start of the run on: all instances make their first dials together)
+//	       | 4 (target given by host name and reachable all the time)
+//	       modes 3 and 4 run in a child process each (the DNS cache is process-wide state)
+//	  behaviours about announced sizes (the wire of Model/RobustWire.v): lielen:<n> (Content-Length: n, then the body
+//	  bytes, then close), ovflen (Content-Length beyond int64), chunksz:<hex> (chunked; one chunk announcing <hex> bytes,
+//	  the body bytes, then close); h2 target: h2lie:<n>. Cases announcing 2^31 bytes or more run in a child process:
+//	  a reader that believed the number could take the whole process down, which is then the observation `crashed`.
 //	  gun = http2: HTTP/2 TLS target, keep-alives disabled so that every request makes its own TLS handshake;
 //	  behaviours: status | tlsalert (this request's handshake is answered with a TLS alert) |
 //	  h2abort (stream reset before the headers) | h2trunc (body shorter than the declared Content-Length)
@@ -97,6 +106,10 @@ func newTarget() *target {
 	if err != nil {
 		panic(err)
 	}
+	return newTargetOn(ln)
+}
+
+func newTargetOn(ln net.Listener) *target {
 	t := &target{ln: ln}
 	go func() {
 		for {
@@ -170,6 +183,19 @@ func respond(c net.Conn, s step) bool {
 	extra := ""
 	if s.tok != "" {
 		extra = "X-Token: " + s.tok + "\r\n"
+	}
+	kind, arg, _ := strings.Cut(s.beh, ":")
+	switch kind {
+	case "lielen": // Content-Length announces arg bytes (any decimal number), the body bytes follow, then close
+		w(fmt.Sprintf("HTTP/1.1 %d St\r\nContent-Type: text/plain\r\n%sContent-Length: %s\r\n\r\n", s.status, extra, arg) + string(s.body))
+		return false
+	case "ovflen": // a Content-Length that does not fit int64
+		w(fmt.Sprintf("HTTP/1.1 %d St\r\n%sContent-Length: 9223372036854775808\r\n\r\n", s.status, extra) + string(s.body))
+		return false
+	case "chunksz": // one chunk announcing <arg> (hex) bytes, the body bytes, then close
+		w(head(s.status, extra+"Transfer-Encoding: chunked\r\n", -1))
+		w(arg + "\r\n" + string(s.body))
+		return false
 	}
 	switch s.beh {
 	case "status": // any status line with a complete body
@@ -319,6 +345,15 @@ func newH2Target(steps []step, withH2 bool) *httptest.Server {
 		}
 		if s.tok != "" {
 			w.Header().Set("X-Token", s.tok)
+		}
+		if v, ok := strings.CutPrefix(s.beh, "h2lie:"); ok { // announces v bytes, sends the body bytes, resets the stream
+			w.Header().Set("Content-Length", v)
+			w.WriteHeader(s.status)
+			_, _ = w.Write(s.body)
+			if f, ok := w.(http.Flusher); ok {
+				f.Flush()
+			}
+			panic(http.ErrAbortHandler)
 		}
 		switch s.beh {
 		case "h2abort":
@@ -471,7 +506,7 @@ func scenarioHCL(steps []step) string {
 // goroutines to stderr) and reported as a hang only if it does not finish the second time either: the guard is a
 // wall-clock bound and the machine may be starved.
 func runEngine(t *tokens) string {
-	if t.f[t.p] == "connect" && os.Getenv("HC19_CHILD") == "" {
+	if needsChild(t.f[t.p:]) && os.Getenv("HC19_CHILD") == "" {
 		// the connect gun dials inside net/http's own goroutine: a panic there cannot be recovered by anybody and
 		// kills the process, so every connect case runs in a child process and a death is an observation
 		cmd := exec.Command(os.Args[0], "child")
@@ -497,6 +532,17 @@ func runEngine(t *tokens) string {
 			if err != nil || !strings.HasPrefix(res, "run=") {
 				return "run=crashed timely=1 n=0"
 			}
+			if strings.HasPrefix(res, "run=harness-port-lost") && portRetries < 3 {
+				portRetries++ // another process took the reserved port between the two listens: not an observation
+				return runEngine(t)
+			}
+			if strings.HasPrefix(res, "run=hang") && os.Getenv("HC19_RETRIED") == "" {
+				// same rule as for in-process runs: the guard is a wall-clock bound, one repetition
+				_ = os.Setenv("HC19_RETRIED", "1")
+				defer os.Unsetenv("HC19_RETRIED")
+				time.Sleep(2 * time.Second)
+				return runEngine(t)
+			}
 			return res
 		case <-time.After(120 * time.Second):
 			_ = cmd.Process.Kill()
@@ -505,7 +551,7 @@ func runEngine(t *tokens) string {
 	}
 	start := t.p
 	out := runEngineOnce(t)
-	if strings.HasPrefix(out, "run=hang") {
+	if strings.HasPrefix(out, "run=hang") && os.Getenv("HC19_CHILD") == "" { // a child's run is repeated by its parent, in a fresh process
 		buf := make([]byte, 1<<20)
 		buf = buf[:runtime.Stack(buf, true)]
 		fmt.Fprintf(os.Stderr, "hC19: run did not finish within the guard, goroutines:\n%s\n", buf)
@@ -514,6 +560,30 @@ func runEngine(t *tokens) string {
 		out = runEngineOnce(t)
 	}
 	return out
+}
+
+// needsChild: connect gun (panics outside Shoot kill the process), host-name targets (process-wide DNS cache), and
+// responses announcing 2^31 bytes or more (a reader trusting the number may exhaust memory, which nothing recovers).
+var portRetries int
+
+func needsChild(f []string) bool {
+	if len(f) < 4 {
+		return false
+	}
+	if f[0] == "connect" || f[3] == "3" || f[3] == "4" {
+		return true
+	}
+	for _, tok := range f {
+		for _, pre := range []string{"lielen:", "h2lie:"} {
+			if v, ok := strings.CutPrefix(tok, pre); ok && len(v) >= 10 {
+				return true
+			}
+		}
+		if v, ok := strings.CutPrefix(tok, "chunksz:"); ok && len(v) >= 8 {
+			return true
+		}
+	}
+	return false
 }
 
 func runEngineOnce(t *tokens) string {
@@ -553,6 +623,14 @@ func runEngineOnce(t *tokens) string {
 		var tg *target
 		if gun == "connect" {
 			tg = newTunnelTarget(steps)
+		} else if mode == "3" {
+			// reserve a port; nobody listens on it while the config is decoded (see lateListen below)
+			ln, err := net.Listen("tcp4", "127.0.0.1:0")
+			if err != nil {
+				panic(err)
+			}
+			tg = &target{ln: ln, steps: steps}
+			_ = ln.Close()
 		} else {
 			tg = newTarget()
 			tg.mu.Lock()
@@ -561,9 +639,13 @@ func runEngineOnce(t *tokens) string {
 		}
 		rawTarget = tg
 		addr = tg.ln.Addr().String()
+		if mode == "3" || mode == "4" {
+			_, port, _ := net.SplitHostPort(addr)
+			addr = "localhost:" + port
+		}
 		if refused {
 			_ = tg.ln.Close() // nobody listens on that port any more: connection refused
-		} else {
+		} else if mode != "3" {
 			defer tg.ln.Close()
 		}
 	}
@@ -615,6 +697,27 @@ func runEngineOnce(t *tokens) string {
 	conf := cli.DefaultConfig()
 	if err := config.DecodeAndValidate(map[string]any{"pools": []any{pool}}, conf); err != nil {
 		return "run=conferr:" + vh.HexS(err.Error())
+	}
+	if mode == "3" {
+		// the target comes up now, on the port the config names
+		_, port, _ := net.SplitHostPort(addr)
+		var ln net.Listener
+		var err error
+		for i := 0; i < 50; i++ {
+			if ln, err = net.Listen("tcp4", "127.0.0.1:"+port); err == nil {
+				break
+			}
+			time.Sleep(100 * time.Millisecond)
+		}
+		if err != nil {
+			return "run=harness-port-lost"
+		}
+		tg := newTargetOn(ln)
+		tg.mu.Lock()
+		tg.steps = steps
+		tg.mu.Unlock()
+		rawTarget = tg
+		defer ln.Close()
 	}
 	ag := &recAggr{}
 	conf.Engine.Pools[0].Aggregator = ag
